@@ -462,3 +462,85 @@ pub fn shoelace2_int(xy: &[[i32; 2]], s: usize, n: usize) -> i32 {
     }
     acc
 }
+
+/// Model with concrete structure and symbolic payload: every coordinate symbolic, ring
+/// parts listed in `open` / `closed` pinned so that closing is decided by constant folding.
+#[cfg(kani)]
+pub fn sym_model(code: i32, parts: &[usize], kinds: &[i32], open: &[usize], closed: &[usize]) -> Model {
+    let mut m = Model::with_structure(code, parts);
+    let mut i = 0;
+    while i < kinds.len() {
+        m.pkind[i] = kinds[i];
+        i += 1;
+    }
+    sym_vertices(&mut m);
+    let mut i = 0;
+    while i < open.len() {
+        pin_open(&mut m, open[i], 1.0, 2.0);
+        i += 1;
+    }
+    let mut i = 0;
+    while i < closed.len() {
+        pin_closed(&mut m, closed[i], [1.0, 2.0, 3.0, 4.0]);
+        i += 1;
+    }
+    assume_xy_not_nan(&m);
+    m
+}
+
+/// One shape of a workload: part lengths, kinds, open ring parts, closed ring parts.
+pub struct Spec<'a> {
+    pub parts: &'a [usize],
+    pub kinds: &'a [i32],
+    pub open: &'a [usize],
+    pub closed: &'a [usize],
+}
+pub const fn spec<'a>(parts: &'a [usize]) -> Spec<'a> {
+    Spec { parts, kinds: &[], open: &[], closed: &[] }
+}
+pub const fn spec_k<'a>(parts: &'a [usize], kinds: &'a [i32], open: &'a [usize], closed: &'a [usize]) -> Spec<'a> {
+    Spec { parts, kinds, open, closed }
+}
+#[cfg(kani)]
+pub fn sym_spec(code: i32, s: &Spec) -> Model {
+    sym_model(code, s.parts, s.kinds, s.open, s.closed)
+}
+
+/// What an independent decoder must recover from a record written for `built`:
+/// same type, counts, part lengths (patch kinds for multipatch), bit-identical X, Y, Z, M
+/// (raw, as handed to the writer) and the box the shape reports; M block present.
+pub fn decoded_equals_built(d: &Model, b: &Model) -> bool {
+    if d.code != b.code || d.nparts != b.nparts || d.nv != b.nv {
+        return false;
+    }
+    let mut i = 0;
+    while i < b.nparts {
+        if d.plen[i] != b.plen[i] {
+            return false;
+        }
+        if b.code == T_MULTIPATCH && d.pkind[i] != b.pkind[i] {
+            return false;
+        }
+        i += 1;
+    }
+    let z = has_z(b.code);
+    let m = may_have_m(b.code);
+    if m && !d.with_m {
+        return false;
+    }
+    if !same_vertices(b, d, z, if m { 1 } else { 0 }) {
+        return false;
+    }
+    if family(b.code) != Some(Family::Point) {
+        if !same_bbox(b, d, 0, 4) {
+            return false;
+        }
+        if z && !same_bbox(b, d, 4, 6) {
+            return false;
+        }
+        if m && !same_bbox(b, d, 6, 8) {
+            return false;
+        }
+    }
+    true
+}
